@@ -510,6 +510,10 @@ class Multiplexer(wiring.Component):
     """
     def __init__(self, memory_map, *, shadow_overlaps=None):
         self._check_memory_map(memory_map)
+        if shadow_overlaps is not None and not (isinstance(shadow_overlaps, int) and
+                                                shadow_overlaps >= 0):
+            raise TypeError(f"Shadow overlaps must be a non-negative integer or None, not "
+                            f"{shadow_overlaps!r}")
         self._shadow_overlaps = shadow_overlaps
         super().__init__({
             "bus": In(Signature(addr_width=memory_map.addr_width,
